@@ -33,6 +33,9 @@ for prop in args:
                         summary[-1] if summary else r.stdout[-200:]))
             if ok:
                 caught.append(chk)
+        if any(r_ == 'patch does not apply' for r_ in runs):
+            print('%-8s patch does not apply any more; meta.json left unchanged' % sid, flush=True)
+            continue
         print('%-8s caught_by=%s' % (sid, caught or 'MISSED'), flush=True)
         for r_ in runs:
             print('    ', r_)
